@@ -424,6 +424,11 @@ class Gen:
         r = self.rng
         if self.bodies and r.random() < 0.55:
             b = r.choice(self.bodies)
+            if r.random() < 0.3:
+                # a look-alike that must NOT be merged with the original: same variables and coefficients, another
+                # additive constant (|x - 1| + |x + 1|), or one more variable
+                extra = ("TNum", ("CNum", r.choice([F(1), F(2), F(1, 2), F(3)]))) if r.random() < 0.75 else ("TVar", r.choice(VARS))
+                return ("Terms", b[1], b[2], list(b[3]) + [(self.sign(), extra)])
             if r.random() < 0.4:
                 # same canonical form, written differently: rotate the signed terms
                 items = [(b[1], b[2])] + list(b[3])
